@@ -1002,6 +1002,7 @@ func ruleNLayer(w *World, r *Report, shift *ssa.Function) {
 	// argument wiring: (element, x-var with hLayers, y-var with hLayers, v-var with vLayers)
 	var used [3]*lv
 	okWire := il.isElem(resolve(c.Call.Args[0]))
+	recognised := okWire
 	for i := 0; i < 3; i++ {
 		for k := range loops {
 			if stripConv(c.Call.Args[1+i]) == ssa.Value(loops[k].phi) {
@@ -1010,6 +1011,7 @@ func ruleNLayer(w *World, r *Report, shift *ssa.Function) {
 		}
 		if used[i] == nil {
 			okWire = false
+			recognised = false // an offset taken from a table, a struct or a helper: not read
 		}
 	}
 	if okWire && (used[0] == used[1] || used[1] == used[2] || used[0] == used[2]) {
@@ -1017,6 +1019,10 @@ func ruleNLayer(w *World, r *Report, shift *ssa.Function) {
 	}
 	if okWire && !(used[0].layer == 1 && used[1].layer == 1 && used[2].layer == 2) {
 		okWire = false
+	}
+	if !okWire && !recognised {
+		r.add("STENCIL", fn+" / shift call", w.Pos(c.Pos()), Undecided, "the arguments of the shift are not directly the input element and the three loop variables ("+shortInstr(c)+")")
+		return
 	}
 	if !okWire {
 		r.add("STENCIL", fn+" / shift call", w.Pos(c.Pos()), Violated, "the shift is not applied to (each input ID, dx in [-hLayers,hLayers], dy in [-hLayers,hLayers], dv in [-vLayers,vLayers]) with three distinct loop variables")
